@@ -108,10 +108,27 @@ theorem add_refuses_existing (fs : Files) (r : Req)
           · exact ⟨_, rfl⟩
           · split
             · exact ⟨_, rfl⟩
-            · rename_i h1 h2
-              rcases hex with h | h
-              · exact absurd h h2
-              · exact absurd h h1
+            · split
+              · exact ⟨_, rfl⟩
+              · rename_i h1 h2
+                rcases hex with h | h
+                · exact absurd h h2
+                · exact absurd h h1
+
+/-- **a file base that already belongs to a basis set of another name is refused before any write** (its metadata file is
+kept as it is, so the new version would otherwise be filed under the other name and the given name would not be retrievable) -/
+theorem add_refuses_foreign_file_base (fs : Files) (r : Req) (h : baseClash fs r = true) : ∃ e, precheck fs r = .error e := by
+  unfold precheck
+  split
+  · exact ⟨_, rfl⟩
+  · split
+    · exact ⟨_, rfl⟩
+    · simp only
+      split
+      · exact ⟨_, rfl⟩
+      · split
+        · exact ⟨_, rfl⟩
+        · simp [h]
 
 /-- a name that the index already gives to another file base is refused before any write -/
 theorem add_refuses_taken_name (fs : Files) (r : Req) (h : nameClash fs r = true) : ∃ e, precheck fs r = .error e := by
